@@ -1,8 +1,11 @@
 """C15: correspondence for ORF scanning (all_orfs.scan_orfs) and intergenic areas
 (all_orfs.find_intergenic_areas), plus an implementation-side oracle on every scan result:
 the reported location, extracted from the genome with Biopython, must be an open reading frame.
-find_all_orfs is run on real Records; the witnesses of the repaired finding FC15a area_misses_enclosing_gene head the
-stream as a regression corpus (REGRESSION_FIND_ALL) and nothing is suppressed for that class any more."""
+find_all_orfs is run on real Records; the witnesses of the repaired findings FC15a area_misses_enclosing_gene,
+FC15b origin_gene_padding_window and FC15c ambiguous_stop_translation head the stream as a regression corpus
+(REGRESSION_FIND_ALL), followed by those of FC15d trimmed_orf_over_origin (REGRESSION_TRIMMED, get_trimmed_orf), and
+nothing is suppressed for those classes any more (no find_all_orfs / get_trimmed_orf finding is left: an oracle or
+specification failure on such an output is always a VIOLATION)."""
 import types
 
 import common
@@ -11,7 +14,8 @@ from common import err_code
 PROP = 15
 BASES = "ACGT"
 COMP = {"A": "T", "C": "G", "G": "C", "T": "A", "N": "N", "a": "t", "c": "g", "g": "c", "t": "a", "n": "n",
-        "R": "Y", "Y": "R", "r": "y", "y": "r"}
+        "R": "Y", "Y": "R", "r": "y", "y": "r", "M": "K", "K": "M", "S": "S", "W": "W", "B": "V", "V": "B", "D": "H", "H": "D",
+        "m": "k", "k": "m", "s": "s", "w": "w", "b": "v", "v": "b", "d": "h", "h": "d"}
 
 
 def revcomp(s):
@@ -123,7 +127,58 @@ class Gen:
                 i = rng.randrange(len(chars))
                 chars[i] = chars[i].lower()
             s = "".join(chars)
+        if rng.random() < 0.12 and len(s) > 8:
+            # IUPAC ambiguity codes (Biopython translates a codon to the residue all its readings share, X otherwise,
+            # and ends the translation at TAR / TRA - the stop codons whatever the base is, finding FC15c)
+            chars = list(s)
+            for _ in range(rng.randint(1, 4)):
+                i = rng.randrange(len(chars))
+                chars[i] = rng.choice("RRRYYNNMKSWBDHVrynk")
+            for _ in range(rng.choice([0, 1, 1, 2])):
+                i = rng.randrange(len(chars) - 3)
+                chars[i:i + 3] = list(rng.choice(["TAR", "TRA", "TAR", "TRA", "YTA", "TYA", "tar", "TrA", "TGR", "TAN"]))
+            s = "".join(chars)
         return s
+
+    def trimmed_case(self):
+        """ get_trimmed_orf: an ORF (start codon, codons with further start codons in frame, stop codon) planted on a
+            circular genome, on either strand, in one part or in two parts over the origin; the limits unset, or placed
+            on and around the positions of the start codons """
+        rng = self.rng
+        k = rng.choice([1, 2, 3, 5, 8, 12])
+        body = []
+        starts = []
+        for j in range(k):
+            if rng.random() < 0.3:
+                body.append(rng.choice(self.starts))
+                starts.append(3 * (j + 1))
+            else:
+                codon = "".join(rng.choice(BASES) for _ in range(3))
+                body.append(codon if codon not in self.stops else "GCA")
+        text = rng.choice(self.starts) + "".join(body) + rng.choice(self.stops[:3])
+        if rng.random() < 0.05:
+            i = rng.randrange(len(text))
+            text = text[:i] + text[i].lower() + text[i + 1:]
+        length = len(text)
+        n = length + rng.choice([0, 1, 5, 20, 40])
+        strand = rng.choice([1, -1])
+        placed = text if strand == 1 else revcomp(text)
+        pos = rng.randrange(0, n) if rng.random() < 0.6 else rng.randrange(max(0, n - length), n)
+        genome = [rng.choice("CCCG") for _ in range(n)]
+        for i, char in enumerate(placed):
+            genome[(pos + i) % n] = char
+        if pos + length <= n:
+            parts = [(pos, pos + length, strand)]
+        else:
+            parts = [(pos, n, strand), (0, pos + length - n, strand)]
+            if strand == -1:
+                parts.reverse()
+        points = [0, 3, length - 3, length, length + 1] + starts + [x + d for x in starts for d in (-1, 1, 3)]
+        include = None if rng.random() < 0.5 else rng.choice(points)
+        max_length = None if rng.random() < 0.5 else max(0, length - rng.choice(points))
+        min_length = rng.choice([0, 0, 5, 6, 9, max(0, length - rng.choice(points))])
+        return {"genome": "".join(genome), "orf": parts, "include": include, "max_length": max_length,
+                "min_length": min_length, "text": text}
 
     def find_all_case(self):
         """ a record with 0-5 genes, linear or circular, with no area, an inner area or an origin-spanning area """
@@ -158,6 +213,22 @@ class Gen:
             area = [(s, n, 1), (0, e, 1)]
         max_overlap = rng.choice([0, 0, 1, 3, 10])
         min_length = rng.choice([0, 3, 5, 6, 8, 9, 11, 12, 20, 60])
+        if area is not None and len(area) > 1 and rng.random() < 0.4:
+            # the inputs of the repaired class origin_gene_padding_window: a gene reaching into both parts of the
+            # origin-spanning area (spanning the origin, or spanning the rest of the record), an allowed overlap that
+            # lets the two allowances pass the length filter
+            strand = rng.choice([1, -1])
+            s, e = area[0][0], area[1][1]
+            if rng.random() < 0.5:
+                parts = [(rng.randrange(s, n), n, strand), (0, rng.randrange(1, e + 1), strand)]
+                if strand == -1:
+                    parts.reverse()
+            else:
+                parts = [(rng.randrange(0, e), rng.randrange(s + 1, n + 1), strand)]
+            if parts not in genes:
+                genes.append(parts)
+            max_overlap = rng.choice([3, 10, 10])
+            min_length = rng.choice([0, 3, 5, 6, 8])
         return {"genome": genome, "circular": circular, "genes": genes, "area": area,
                 "min_length": min_length, "max_overlap": max_overlap}
 
@@ -217,8 +288,9 @@ def find_all_oracle(case, record, area, features, starts, stops):
             return f"{loc}: positions outside the record or repeated"
         for gene, gpos in zip(record.get_cds_features(), gene_pos):
             if len(gpos & set(pos)) > case["max_overlap"]:
-                # class origin_gene_padding_window: the area spans the origin and the gene reaches into both of its
-                # parts (a gene spanning the origin, or one spanning the rest of the record)
+                # (-ORIGIN marks the inputs of the former class origin_gene_padding_window, FC15b, repaired: the area
+                # spans the origin and the gene reaches into both of its parts - a gene spanning the origin, or one
+                # spanning the rest of the record; for the message only)
                 at_origin = area is not None and len(area.location.parts) > 1 and \
                     all(gpos & set(range(int(part.start), int(part.end))) for part in area.location.parts)
                 return (f"OVERLAP{'-ORIGIN' if at_origin else ''} {loc}: overlaps gene {gene.location} by "
@@ -226,9 +298,50 @@ def find_all_oracle(case, record, area, features, starts, stops):
         if area_pos is not None and not set(pos) <= area_pos:
             return f"{loc}: outside the searched area"
         expected = str(Seq(text).translate(to_stop=True, table=11))
+        for odd in "BJZ":
+            expected = expected.replace(odd, "X")
         expected = "M" + expected[1:]
         if feature.translation != expected:
             return f"{loc}: translation {feature.translation} is not {expected}"
+        if 3 * len(feature.translation) + 3 != len(text):
+            # (repaired finding FC15c ambiguous_stop_translation: TAR / TRA inside the ORF ended the translation early)
+            return f"{loc}: translation {feature.translation} has {len(feature.translation)} residues for {len(text) // 3 - 1} codons"
+    return None
+
+
+def trimmed_oracle(case, orf_location, result):
+    """ implementation-side, independent of the model: the location of the trimmed ORF extracts (Biopython) to a proper
+        suffix of the ORF text, in frame, beginning with a start codon, within the limits; with the limits unset it is
+        the shortest such suffix; the translation is that of the suffix """
+    from Bio.Seq import Seq
+    from antismash.common import all_orfs
+    genome = Seq(case["genome"])
+    text = str(orf_location.extract(genome))
+    if text != case["text"]:
+        return f"generator: the planted ORF {case['text']} is not at {orf_location} ({text})"
+    length = len(text)
+    candidates = [i for i in range(0, length, 3) if text[i:i + 3] in all_orfs.START_CODONS]
+    if result is None:
+        if case["include"] is None and case["max_length"] is None and case["min_length"] <= length and \
+                any(length - i >= case["min_length"] and i < length - case["min_length"] for i in candidates):
+            return "no trimmed ORF although a start codon leaves at least the minimum length"
+        return None
+    got = str(result.location.extract(genome))
+    if not (len(got) <= length and text.endswith(got) and len(got) % 3 == 0 and got[:3] in all_orfs.START_CODONS):
+        return f"trimmed location {result.location} extracts to {got}: not a suffix of the ORF {text} at a start codon"
+    if positions_of(result.location) != positions_of(orf_location)[length - len(got):]:
+        return f"trimmed location {result.location} is not the end of {orf_location}"
+    if len(got) < case["min_length"] or (case["max_length"] is not None and len(got) > case["max_length"]):
+        return f"trimmed ORF of {len(got)} nt outside the limits"
+    if case["include"] is not None and length - len(got) > case["include"]:
+        return f"trimmed ORF begins after the position to include"
+    if case["include"] is None and case["max_length"] is None:
+        later = [i for i in candidates if i > length - len(got) and i < length - case["min_length"]]
+        if later:
+            return f"trimmed ORF begins at {length - len(got)} although the start codon at {later[-1]} is allowed"
+    expected = "M" + str(Seq(got).translate(to_stop=True, table=11))[1:]
+    if result.translation != expected:
+        return f"trimmed ORF: translation {result.translation} is not {expected}"
     return None
 
 
@@ -250,17 +363,44 @@ REGRESSION_FIND_ALL = [
      "area": [(30, 60, 1), (0, 8, 1)], "min_length": 5, "max_overlap": 0},
     {"genome": _FC15A_GENOME, "circular": False, "genes": [[(5, 40, -1)], [(10, 20, 1)], [(12, 18, -1)]],
      "area": [(30, 60, 1)], "min_length": 5, "max_overlap": 3},
+    # Witnesses of the REPAIRED finding FC15b origin_gene_padding_window (known_findings.json, status fixed): a gene reaching
+    # into both parts of an origin-spanning area; the window joined over the origin carries max_overlap bases before the
+    # record end AND after the record start, and find_all_orfs returned an ORF sharing more than max_overlap positions with
+    # the gene.  First the stored witness (gene spanning the origin, ORF join{[38:47](+),[0:3](+)} inside it, 12 > 10), then
+    # the form with a gene spanning the rest of the record (ORF join{[32:47](+),[0:12](+)}, 8 + 9 = 17 > 10), the same on
+    # the reverse strand (genome reverse-complemented in place), and - completeness - an ORF over the origin that shares
+    # 5 + 3 = 8 <= 10 positions with such a gene and must still be returned (the model returns it, so dropping it is a
+    # disagreement).
+    {"genome": "TAGTCGTGTGCTGACTTGAATTTCCGTCGGTGCCATGTATGCATCGT", "circular": True,
+     "genes": [[(0, 9, -1), (36, 47, -1)], [(38, 42, 1)]], "area": [(26, 47, 1), (0, 6, 1)], "min_length": 5, "max_overlap": 10},
+    {"genome": "AAAAAAAAATAA" + "C" * 20 + "ATGAAAAAAAAAAAA", "circular": True,
+     "genes": [[(3, 40, 1)]], "area": [(30, 47, 1), (0, 13, 1)], "min_length": 5, "max_overlap": 10},
+    {"genome": revcomp("AAAAAAAAATAA" + "C" * 20 + "ATGAAAAAAAAAAAA"), "circular": True,
+     "genes": [[(7, 44, -1)]], "area": [(34, 47, 1), (0, 17, 1)], "min_length": 5, "max_overlap": 10},
+    {"genome": "AAATAA" + "C" * 29 + "ATGAAAAAAAAA", "circular": True,
+     "genes": [[(3, 40, 1)]], "area": [(30, 47, 1), (0, 13, 1)], "min_length": 5, "max_overlap": 10},
+    # Witnesses of the REPAIRED finding FC15c ambiguous_stop_translation: TAR / TRA (R = A or G) are stop codons whatever the
+    # base is; Biopython ends the translation there, scan_orfs did not end the ORF there: ORF [3:21)(+) with translation MK.
+    # The stored witness, TRA, lower case, and the reverse strand (YTA / TYA on the forward strand).
+    {"genome": "CCCATGAAATARAAAAAATAACCC", "circular": False, "genes": [], "area": None, "min_length": 3, "max_overlap": 10},
+    {"genome": "CCCATGAAATRAAAAAAATAACCC", "circular": False, "genes": [], "area": None, "min_length": 3, "max_overlap": 10},
+    {"genome": "CCCATGAAAtarAAAAAATAACCC", "circular": True, "genes": [], "area": None, "min_length": 3, "max_overlap": 10},
+    {"genome": revcomp("CCCATGAAATARAAAAAATAACCC"), "circular": False, "genes": [], "area": None, "min_length": 3,
+     "max_overlap": 10},
+    {"genome": revcomp("CCCATGAAATRAAAAAAATAACCC"), "circular": False, "genes": [], "area": [(0, 24, 1)], "min_length": 3,
+     "max_overlap": 10},
 ]
+REPAIRED_FIND_ALL_CLASSES = ("area_misses_enclosing_gene", "origin_gene_padding_window", "ambiguous_stop_translation")
 
 
 def regression_cases():
     """ the corpus above plus the stored witness of every repaired find_all_orfs finding of known_findings.json """
     out = [dict(case) for case in REGRESSION_FIND_ALL]
     for finding in common.load_known_findings("C15"):
-        if finding["status"] == "fixed" and finding["class"] == "area_misses_enclosing_gene":
+        if finding["status"] == "fixed" and finding["class"] in REPAIRED_FIND_ALL_CLASSES:
             case = dict(finding["witness"])
             case["genes"] = [[tuple(p) for p in g] for g in case["genes"]]
-            case["area"] = [tuple(p) for p in case["area"]]
+            case["area"] = None if case["area"] is None else [tuple(p) for p in case["area"]]
             if case not in out:
                 out.append(case)
     return out
@@ -331,18 +471,28 @@ RULE = ("scan_orfs: windows of codon-structured random genomes (start/stop codon
         "on and around ORF lengths, with and without record length; the Gallina specification (is_orf, positions, minimum) is "
         "evaluated on EVERY implementation output; find_intergenic_areas: 0-6 genes incl. nested, staggered and "
         "(rarely) unsorted, padding 0-10, minimum placed on gap lengths, with a bitmap oracle for soundness/coverage/maximality; "
-        "find_all_orfs: real Records (ACGT/acgt genomes of 24-190 nt, linear and circular) with 0-5 real CDS features incl. "
-        "origin-spanning genes, no area / inner SubRegion / origin-spanning SubRegion, min_length 0-60, max_overlap 0-10, with an "
-        "oracle (Biopython extract/translate, gene overlap, area); the regression corpus (witnesses of the repaired finding "
-        "area_misses_enclosing_gene: nested gene / origin-spanning gene hiding the gene that reaches into the area) runs first.  "
+        "find_all_orfs: real Records (genomes of 24-190 nt, ACGT/acgt, 12 % with IUPAC ambiguity codes and planted TAR/TRA/YTA/TYA/"
+        "TGR/TAN, linear and circular) with 0-6 real CDS features incl. origin-spanning genes and (40 % of the origin-spanning areas) "
+        "a gene reaching into both parts of the area, no area / inner SubRegion / origin-spanning SubRegion, min_length 0-60, "
+        "max_overlap 0-10, with an "
+        "oracle (Biopython extract/translate, gene overlap, area); the regression corpus (witnesses of the repaired findings "
+        "area_misses_enclosing_gene: nested gene / origin-spanning gene hiding the gene that reaches into the area; "
+        "origin_gene_padding_window: gene reaching into both parts of an origin-spanning area, both forms, both strands, and an "
+        "ORF over the origin that must be kept; ambiguous_stop_translation: TAR / TRA inside an ORF, both strands) runs first; "
+        "get_trimmed_orf: ORFs planted on circular genomes in one part or in two parts over the origin, both strands, further "
+        "start codons in frame, include / max_length / min_length unset or on and around the start codons, against the model "
+        "and a Biopython oracle (suffix of the ORF at a start codon, positions, limits, translation), after the witnesses of the "
+        "repaired finding trimmed_orf_over_origin.  "
         "Non-trivial = at least one ORF / one area / one feature "
         "reported; distinct by flat encoding")
 
 
-PENDING = []        # oracle failures inside the class of a recorded finding: decided after the correspondence
 PENDING_BASE = []   # alias of the list of cases, to know the index of the current case
 GAP_SPEC = []       # (index of the case, case, flat case of run id 12, shown output): Gallina specification of C15_gaps
-GAP_CLASS = {2: "origin_gene_padding_window"}   # 1 was area_misses_enclosing_gene (FC15a): repaired, never suppressed
+# Model.gaps_class: COVERAGE classes only, nothing is suppressed for them.  2 = a gene reaches into both parts of an
+# origin-spanning area (the inputs of the former class origin_gene_padding_window, FC15b: repaired); 1 was
+# area_misses_enclosing_gene (FC15a): repaired, never returned any more
+GAP_CLASS = {2: "gene_in_both_parts_of_origin_area"}
 
 
 def enc_chars(text):
@@ -381,16 +531,13 @@ def run_find_all(chk, gen, all_orfs, starts, stops, case=None):
         if bad:
             replay = {"theorem_or_correspondence": "C15_gaps / find_all_orfs", "input": case, "flat": flat,
                       "implementation": [f"{f.location} {f.get_name()} {f.translation}" for f in features]}
-            if bad.startswith("OVERLAP-ORIGIN"):
-                # origin-spanning area, and the gene overlapped too much reaches into both parts of the area
-                chk.count("find_all_in_class_origin_gene_padding_window")
-                PENDING.append((len(PENDING_BASE), "origin_gene_padding_window", bad, replay))
-            else:
-                # (an overlap with a gene the look-up helper had left out used to be the recorded class
-                #  area_misses_enclosing_gene, FC15a: repaired, so it is a violation like any other)
-                if regression:
-                    replay["regression_witness_of_repaired_class"] = "area_misses_enclosing_gene"
-                chk.violation("counterexample", f"find_all_orfs returns a feature violating the property: {bad}", replay)
+            # (an overlap with a gene the look-up helper had left out used to be the recorded class
+            #  area_misses_enclosing_gene, FC15a; an overlap with a gene reaching into both parts of an origin-spanning
+            #  area - message OVERLAP-ORIGIN - the recorded class origin_gene_padding_window, FC15b: both repaired, so
+            #  either is a violation like any other)
+            if regression:
+                replay["regression_corpus_of_repaired_classes"] = list(REPAIRED_FIND_ALL_CLASSES)
+            chk.violation("counterexample", f"find_all_orfs returns a feature violating the property: {bad}", replay)
         nontrivial = len(features) > 0
         # the Gallina specification (Model.spec_gaps: shared positions with every gene, searched part, translation;
         # guard and class of C15_gaps) on this output
@@ -406,6 +553,60 @@ def run_find_all(chk, gen, all_orfs, starts, stops, case=None):
     return flat, out, nontrivial, sample
 
 
+# regression corpus of get_trimmed_orf: witnesses of the REPAIRED finding FC15d trimmed_orf_over_origin (an ORF in two parts
+# over the origin, as find_all_orfs returns it, was trimmed by arithmetic on the envelope of its location: [6:60](+) for
+# join{[48:60](+),[0:9](+)}), forward and reverse strand
+_FC15D_TEXT = "ATGAAAATGAAAAAAAAATAA"
+REGRESSION_TRIMMED = [
+    {"genome": "AAAAAATAA" + "C" * 39 + "ATGAAAATGAAA", "orf": [(48, 60, 1), (0, 9, 1)], "include": None,
+     "max_length": None, "min_length": 5, "text": _FC15D_TEXT},
+    {"genome": revcomp("AAAAAATAA" + "C" * 39 + "ATGAAAATGAAA"), "orf": [(0, 12, -1), (51, 60, -1)], "include": None,
+     "max_length": None, "min_length": 5, "text": _FC15D_TEXT},
+    {"genome": "AAAAAATAA" + "C" * 39 + "ATGAAAATGAAA", "orf": [(48, 60, 1), (0, 9, 1)], "include": 7,
+     "max_length": 18, "min_length": 0, "text": _FC15D_TEXT},
+]
+
+
+def run_trimmed(chk, gen, all_orfs, case=None):
+    from antismash.common.secmet import Record
+    from antismash.common.secmet.test.helpers import DummyCDS
+    from Bio.Seq import Seq
+    if case is None:
+        case = gen.trimmed_case()
+    else:
+        chk.count("trimmed_regression_corpus")
+    record = Record(Seq(case["genome"]), transl_table=11)
+    record.add_annotation("topology", "circular")
+    location = make_location(case["orf"])
+    orf = DummyCDS(location=location, locus_tag="orf", translation="MA")
+    opt = lambda x: [0] if x is None else [1, x]
+    flat = [PROP, 4] + enc_chars(case["genome"]) + enc_pyloc(location) + opt(case["include"]) + opt(case["max_length"]) + \
+           [case["min_length"]]
+    chk.count("get_trimmed_orf")
+    chk.count("trimmed_orf_parts_" + str(len(location.parts)))
+    nontrivial = False
+    try:
+        result = common.call_with_timeout(
+            lambda: all_orfs.get_trimmed_orf(orf, record, include=case["include"], min_length=case["min_length"],
+                                             max_length=case["max_length"]))
+        if result is None:
+            out = [0, 0]
+        else:
+            out = [0, 1] + enc_pyloc(result.location) + enc_chars(result.get_name()) + enc_chars(result.translation)
+            nontrivial = True
+            chk.count("trimmed_orf_found_parts_" + str(len(result.location.parts)))
+        bad = trimmed_oracle(case, location, result)
+        if bad:
+            chk.violation("counterexample", f"get_trimmed_orf: {bad}",
+                          {"theorem_or_correspondence": "C15_trimmed_positions / get_trimmed_orf", "input": case, "flat": flat,
+                           "implementation": None if result is None else f"{result.location} {result.translation}"})
+    except Exception as exc:  # pylint: disable=broad-except
+        out = [1, err_code(exc)]
+        chk.count("trimmed_error_" + common.ERR_NAME.get(out[1], str(out[1])))
+    sample = {"function": "get_trimmed_orf", **case, "implementation": out[:40]}
+    return flat, out, nontrivial, sample
+
+
 def run(chk):
     if not chk.build_and_audit():
         return chk.finish(RULE)
@@ -417,17 +618,20 @@ def run(chk):
                               for f in common.load_known_findings("C15"))
     cases, impl_outs = [], []
     spec_cases, spec_of = [], []
-    del PENDING[:]
     del GAP_SPEC[:]
     global PENDING_BASE  # pylint: disable=global-statement
     PENDING_BASE = cases
-    listed = set(f["class"] for f in common.load_known_findings("C15") if f["status"] == "known")
     corpus = regression_cases()
+    trimmed_corpus = [dict(case) for case in REGRESSION_TRIMMED]
     for i in range(total):
         r = chk.rng.random()
         if i < len(corpus):
             flat, out, nontrivial, sample = run_find_all(chk, gen, all_orfs, starts, stops, case=corpus[i])
-        elif r < 0.62:
+        elif i < len(corpus) + len(trimmed_corpus):
+            flat, out, nontrivial, sample = run_trimmed(chk, gen, all_orfs, case=trimmed_corpus[i - len(corpus)])
+        elif r < 0.04:
+            flat, out, nontrivial, sample = run_trimmed(chk, gen, all_orfs)
+        elif r < 0.63:
             case = gen.scan_case()
             rl = case["record_length"]
             flat = [PROP, 1, len(case["seq"])] + [ord(c) for c in case["seq"]] + \
@@ -499,19 +703,12 @@ def run(chk):
                        "flat": cases[idx], "implementation": shown, "model": model_outs[idx],
                        "spec_verdict_on_implementation_output": {"spec_ok": spec_ok, "guard_no_exact_minimum_orf": guard,
                                                                  "spec_ok_with_length_above_minimum": spec_partial}})
-    in_class = {}
-    for idx, cls, bad, replay in PENDING:
-        if cls in listed and impl_outs[idx] == model_outs[idx]:
-            in_class[cls] = in_class.get(cls, 0) + 1     # in the class, class listed, implementation == faithful model
-            continue
-        chk.violation("counterexample", f"find_all_orfs returns a feature violating the property: {bad}", replay)
-    chk.extra["oracle_failures_in_known_classes"] = in_class
     # C15_gaps / C15_translation: Model.spec_gaps on every find_all_orfs output of the implementation.  The theorem
-    # C15_gaps_spec_ok says the model's output satisfies it whenever the guard holds, so a failure under the guard is a
-    # violation; a failure outside the guard is attributed to the class the Gallina function gaps_class names.
+    # C15_gaps_spec_ok says the model's output satisfies it on every well-formed input with an ACGT/acgt genome (verdict
+    # slot "guard" = exactly those hypotheses; no class of inputs is excluded any more), so every failure is a violation.
     gap_verdicts = common.run_driver([g[2] for g in GAP_SPEC])
-    gap_stats = {"evaluated": 0, "guard_holds": 0,
-                 "class_origin_gene_padding_window": 0, "spec_failures_in_known_classes": {}}
+    gap_stats = {"evaluated": 0, "guard_holds": 0, "class_gene_in_both_parts_of_origin_area": 0,
+                 "features_returned_in_class_gene_in_both_parts_of_origin_area": 0}
     for verdict, (idx, case, spec_flat, shown) in zip(gap_verdicts, GAP_SPEC):
         if len(verdict) != 4:
             chk.violation("broken-correspondence", "the gap specification could not be evaluated on an implementation output",
@@ -522,20 +719,17 @@ def run(chk):
         gap_stats["guard_holds"] += 1 if guard else 0
         if cls in GAP_CLASS:
             gap_stats["class_" + GAP_CLASS[cls]] += 1
+            gap_stats["features_returned_in_class_" + GAP_CLASS[cls]] += len(shown)
         if spec_ok:
             continue
         replay = {"theorem_or_correspondence": "C15_gaps / C15_translation (spec_gaps)", "input": case, "flat": cases[idx],
                   "spec_flat": spec_flat, "implementation": shown, "model": model_outs[idx],
                   "spec_verdict_on_implementation_output": {"spec_ok": spec_ok, "guard": guard, "class": cls,
                                                             "well_formed": well_formed}}
-        if not guard and cls in GAP_CLASS and GAP_CLASS[cls] in listed and impl_outs[idx] == model_outs[idx]:
-            # recorded finding: in the class, class listed, implementation == faithful model
-            known = gap_stats["spec_failures_in_known_classes"]
-            known[GAP_CLASS[cls]] = known.get(GAP_CLASS[cls], 0) + 1
-            continue
         chk.violation("counterexample", "find_all_orfs: a returned feature shares more than max_overlap positions with a "
                       "gene, leaves the searched area, or carries a translation that is not the protein of its location"
-                      + ("" if guard else f" (outside the guard of C15_gaps, class {GAP_CLASS.get(cls, 'none')})"), replay)
+                      + ("" if guard else " (input not well-formed in the sense of Model.gaps_wf)")
+                      + (f" (coverage class {GAP_CLASS[cls]})" if cls in GAP_CLASS else ""), replay)
     chk.extra["spec_gaps"] = gap_stats
     chk.extra["spec_scan_evaluations"] = len(verdicts)
     chk.extra["spec_failures_in_known_class_orf_exact_minimum"] = suppressed
@@ -555,24 +749,6 @@ def known_findings(chk, all_orfs):
             seq = finding["witness"]["seq"]
             minimum = finding["witness"]["minimum"]
             if len(all_orfs.scan_orfs(seq, 1, 0, minimum)) == 0 and len(all_orfs.scan_orfs(seq, 1, 0, minimum - 1)) == 1:
-                chk.known(finding["what_fails"])
-        if finding["class"] == "origin_gene_padding_window":
-            case = dict(finding["witness"])
-            case["genes"] = [[tuple(p) for p in g] for g in case["genes"]]
-            case["area"] = [tuple(p) for p in case["area"]]
-            record, area = build_record(case)
-            features = all_orfs.find_all_orfs(record, area, min_length=case["min_length"], max_overlap=case["max_overlap"])
-            bad = find_all_oracle(case, record, area, features, set(all_orfs.START_CODONS), set(all_orfs.STOP_CODONS))
-            # the Gallina specification on the implementation's output for the witness: fails, outside the guard, in the class
-            flat = [PROP, 12] + enc_chars(case["genome"]) + [len(record.get_cds_features())]
-            for gene in record.get_cds_features():
-                flat += enc_pyloc(gene.location)
-            flat += [1] + enc_pyloc(area.location) + [case["min_length"], case["max_overlap"], len(features)]
-            for feature in features:
-                flat += enc_pyloc(feature.location) + enc_chars(feature.get_name()) + enc_chars(feature.translation)
-            verdict = common.run_driver([flat])[0]
-            in_class = len(verdict) == 4 and verdict[0] == 0 and verdict[1] == 0 and verdict[2] == 2
-            if bad and bad.startswith("OVERLAP-ORIGIN") and in_class:
                 chk.known(finding["what_fails"])
 
 
